@@ -32,37 +32,38 @@ type MustCall struct {
 }
 
 type Contract struct {
-	Key         string // canonical function name
-	Pkg         *types.Package
-	Props       []string
-	Requires    []*Clause
-	Ensures     []*Clause
-	Modifies    []Expr
-	ModAll      bool
-	HasMod      bool
-	Loops       map[int][]*Clause
-	LoopOver    map[int]string
-	Sites       []*SiteSpec
-	Lets        []letDef
-	Trusted     bool
-	Inline      bool
-	Pure        bool
-	NoPanic     bool
-	MayPanic    *Clause
-	File        string
-	Line        int
-	Findings    []*FindingSplit
-	Witness     []*Clause
-	Uses        []string
-	RepInvs     []*Clause
-	FrozenClock bool
-	Ghosts      []string
-	Except      []Expr // modifies * except ...
-	Afters      []*AfterHook
-	Hides       []string        // pure spec functions treated as uninterpreted (heap-parametric) within this function's VC
-	Assumes     []*Clause       // input invariants assumed at entry and NOT checked at call sites (listed as assumptions)
-	Options     map[string]bool // per-function encoding options (see CONTRACTS.md): namedjoins
-	ReadsClock  bool
+	Key           string // canonical function name
+	Pkg           *types.Package
+	Props         []string
+	Requires      []*Clause
+	Ensures       []*Clause
+	Modifies      []Expr
+	ModAll        bool
+	HasMod        bool
+	Loops         map[int][]*Clause
+	LoopOver      map[int]string
+	Sites         []*SiteSpec
+	Lets          []letDef
+	Trusted       bool
+	Inline        bool
+	Pure          bool
+	NoPanic       bool
+	MayPanic      *Clause
+	File          string
+	Line          int
+	Findings      []*FindingSplit
+	Witness       []*Clause
+	Uses          []string
+	RepInvs       []*Clause
+	FrozenClock   bool
+	Ghosts        []string
+	Except        []Expr // modifies * except ...
+	Afters        []*AfterHook
+	Hides         []string        // pure spec functions treated as uninterpreted (heap-parametric) within this function's VC
+	CallerNothing bool            // `callerframe nothing`: callers assume an empty frame although the body is verified against the declared one
+	Assumes       []*Clause       // input invariants assumed at entry and NOT checked at call sites (listed as assumptions)
+	Options       map[string]bool // per-function encoding options (see CONTRACTS.md): namedjoins
+	ReadsClock    bool
 }
 
 // FindingSplit: a known finding attached to an ensures/site label; Disc is the
@@ -145,7 +146,7 @@ type Contracts struct {
 	overlay     map[string][]byte
 }
 
-var kwRe = regexp.MustCompile(`^(inventory|func|prop|requires|ensures|modifies|loop|site|trusted|inline|let|pure|axiom|lemma|invariant|nopanic|maypanic|finding|ispure|witness|uses|repinv|frozenclock|readsclock|rec|hides|ghost|after|option|assumes)\b`)
+var kwRe = regexp.MustCompile(`^(inventory|func|prop|requires|ensures|modifies|loop|site|trusted|inline|let|pure|axiom|lemma|invariant|nopanic|maypanic|finding|ispure|witness|uses|repinv|frozenclock|readsclock|rec|hides|ghost|after|option|assumes|callerframe)\b`)
 
 func LoadContracts(p *Program) (*Contracts, error) {
 	cs := &Contracts{Fns: map[string]*Contract{}, Pures: map[string]*PureFn{}, RepInvs: map[string]*RepInv{}}
@@ -240,6 +241,11 @@ func (cs *Contracts) parseFile(path string, pkg *types.Package) error {
 			for _, x := range strings.FieldsFunc(rest, func(r rune) bool { return r == ',' || r == ' ' }) {
 				cur.Props = append(cur.Props, x)
 			}
+		case "callerframe":
+			if cur == nil || strings.TrimSpace(strings.SplitN(rest, "//", 2)[0]) != "nothing" {
+				return fail(rc, "callerframe nothing (inside a func contract)")
+			}
+			cur.CallerNothing = true
 		case "assumes":
 			if cur == nil {
 				return fail(rc, "assumes outside func")
